@@ -43,3 +43,11 @@ add("C10", "exploration", [
      "shards": {"quick": 8, "thorough": 16}, "checks": {"quick": 1500, "thorough": 60000},
      "timeout": {"quick": 300, "thorough": 2400}},
 ])
+
+add("C01", "exploration", [
+    {"name": "c01-enum", "bin": "c01", "pkg": ZZ + "c01", "run": "^TestVerifC01Enum$",
+     "shards": {"quick": 6, "thorough": 16}, "timeout": {"quick": 600, "thorough": 3000}},
+    {"name": "c01-random", "bin": "c01", "pkg": ZZ + "c01", "run": "^TestVerifC01Random$",
+     "shards": {"quick": 10, "thorough": 16}, "checks": {"quick": 300, "thorough": 15000},
+     "timeout": {"quick": 600, "thorough": 3000}},
+])
